@@ -87,7 +87,8 @@ theorem bindings_preserved (p : Program) (cfg : Cfg) (hc : (markAST p cfg).crash
 
 /-- services_nofilter: without -m every root service is marked, and every marked service is complete:
 all its functions are marked and, when it extends a service of another file, that include and that
-base service are marked (so the whole cross-file extends chain survives). -/
+base service are marked; when it extends a service of its own file, that one is marked (so the whole
+extends chain survives). -/
 theorem services_nofilter (p : Program) (cfg : Cfg) (hm : cfg.methods = []) (hu : UniqueSvcFn p)
     (hc : (markAST p cfg).crash = false) :
     (∀ svc ∈ (p.file 0).services, Node.svc 0 svc.name ∈ (markAST p cfg).marks) ∧
@@ -114,41 +115,63 @@ theorem method_filter (p : Program) (cfg : Cfg) (hne : cfg.methods ≠ []) :
       ∃ fa, hitLoose cfg (effMethods p cfg) (dot fa n) = true :=
   method_filter_sound p cfg hne
 
-/-- trim_resolves, service part (PARTIAL: without -m only).  A kept service that extends a service of
-another file keeps that include and that base service; a root service that extends a service of the
-root file keeps it.  The full statement — "every `extends` of a kept service still resolves" — is
-false: see `base_service_dropped`. -/
+/-- trim_resolves, service part, without -m: a kept service that extends a service of another file
+keeps that include and that base service; a kept service (of any file) that extends a service of its
+own file keeps it (the latter since the repair 9f1b8cf of `markService`).  With -m the `extends` of a
+kept service is either cut by `cleanServiceExtends` or its base is kept; that case is covered by the
+correspondence and the oracle only. -/
 theorem trim_resolves_partial (p : Program) (cfg : Cfg) (hm : cfg.methods = []) (hu : UniqueSvcFn p)
     (hc : (markAST p cfg).crash = false) :
     (∀ f svc, svc ∈ (p.file f).services → Node.svc f svc.name ∈ (markAST p cfg).marks → svc.ext ≠ [] →
       ∀ rn i g b, svc.ref = some (rn, i) → p.incTarget f i = some g → findSvc p g rn = some b →
         Node.inc f i ∈ (markAST p cfg).marks ∧ Node.svc g b.name ∈ (markAST p cfg).marks) ∧
-    (∀ svc ∈ (p.file 0).services, ∀ b, findSvc p 0 svc.ext = some b → Node.svc 0 b.name ∈ (markAST p cfg).marks) := by
-  obtain ⟨h1, h2⟩ := services_nofilter p cfg hm hu hc
-  refine ⟨fun f svc hs hmk he rn i g b hr hg hb => ?_, fun svc _ b hb => h1 b (findSvc_mem p hb)⟩
-  have := (h2 f svc hs hmk).2 he rn i g hr hg
+    (∀ f svc, svc ∈ (p.file f).services → Node.svc f svc.name ∈ (markAST p cfg).marks → svc.ext ≠ [] →
+      svc.ref = none → ∀ b, findSvc p f svc.ext = some b → Node.svc f b.name ∈ (markAST p cfg).marks) := by
+  obtain ⟨_, h2⟩ := services_nofilter p cfg hm hu hc
+  refine ⟨fun f svc hs hmk he rn i g b hr hg hb => ?_, fun f svc hs hmk he hr b hb => (h2 f svc hs hmk).2.2 he hr b hb⟩
+  have := (h2 f svc hs hmk).2.1 he rn i g hr hg
   exact ⟨this.1, this.2 b hb⟩
 
-/-- Counterexample to the full trim_resolves (defect, reproduced on the implementation by the oracle
-class `trim-error`): `f0: include "f1.thrift"; service V0 extends f1.V2 {}` and
-`f1: service V1 {}; service V2 extends V1 {}`, no -m.  The run does not crash, `V1` exists before,
-and afterwards file 1 consists of `V2 extends V1` alone: its base service is gone. -/
-theorem base_service_dropped :
+/-- Regression item (defect 1, repaired in /repo by 9f1b8cf; formerly the counterexample
+`base_service_dropped`): `f0: include "f1.thrift"; service V0 extends f1.V2 {}` and
+`f1: service V1 {}; service V2 extends V1 {}`, no -m.  File 1 keeps both services, `V1` resolves,
+and trimming again changes nothing. -/
+theorem base_service_kept_regression :
     (markAST progA cfg0).crash = false ∧
-    findSvc progA 1 [86, 49] ≠ none ∧
-    ((trimProg progA cfg0).file 1).services = [⟨[86, 50], [86, 49], none, []⟩] ∧
-    findSvc (trimProg progA cfg0) 1 [86, 49] = none :=
+    ((trimProg progA cfg0).file 1).services = [⟨[86, 49], [], none, []⟩, ⟨[86, 50], [86, 49], none, []⟩] ∧
+    findSvc (trimProg progA cfg0) 1 [86, 49] ≠ none ∧
+    trimProg (trimProg progA cfg0) cfg0 = trimProg progA cfg0 :=
   progA_facts
 
-/-- Counterexample to trim_idempotent with -m (defect, oracle class `not-idempotent`):
-`service V0 {}  service V1 extends V0 { void putAll() }`, `-m V1.put`.  The first trim keeps
-`putAll` (traceExtendMethod matches without the prefix rule) and cuts `extends`; the second trim,
-now without `extends`, applies the prefix rule and removes the service. -/
+/-- Counterexamples to trim_idempotent with -m for the code before the proposed repairs
+(`Fix` all false; oracle class `not-idempotent`).
+(2) `service V0 {}  service V1 extends V0 { void putAll() }`, `-m V1.put`: the first trim keeps `putAll`
+(traceExtendMethod matches without the prefix rule) and cuts `extends`; the second removes the service.
+(3) `service V0 extends f1.V2 {}  service V1 extends V0 {}`, `f1: service V2 { void m0() }`, `-m ^V1\.m0$`:
+`V0` loses its `extends` although `V1` inherits `m0` through it; a second trim differs.
+(4) `service V0 extends f1.V1 { void m0() }`, `-m V0.m0`: the include of the cut base survives the first
+trim only. -/
 theorem not_idempotent_with_methods :
-    (markAST progB cfgB).crash = false ∧
-    ((trimProg progB cfgB).file 0).services = [⟨[86, 49], [], none, [⟨[112, 117, 116, 65, 108, 108], [], [], none⟩]⟩] ∧
-    ((trimProg (trimProg progB cfgB) cfgB).file 0).services = [] :=
-  progB_facts
+    ((trimProg progB (cfgB fixOff)).file 0).services = [⟨[86, 49], [], none, [⟨[112, 117, 116, 65, 108, 108], [], [], none⟩]⟩] ∧
+    ((trimProg (trimProg progB (cfgB fixOff)) (cfgB fixOff)).file 0).services = [] ∧
+    ((trimProg progC (cfgC fixOff)).file 0).services = [⟨[86, 48], [], none, []⟩, ⟨[86, 49], [86, 48], none, []⟩] ∧
+    trimProg (trimProg progC (cfgC fixOff)) (cfgC fixOff) ≠ trimProg progC (cfgC fixOff) ∧
+    ((trimProg progD (cfgD fixOff)).file 0).includes.length = 1 ∧
+    ((trimProg (trimProg progD (cfgD fixOff)) (cfgD fixOff)).file 0).includes.length = 0 :=
+  ⟨progB_facts.2.1, progB_facts.2.2, progC_facts_off.1, progC_facts_off.2, progD_facts_off.1, progD_facts_off.2⟩
+
+/-- Regression items for the three proposed repairs (`Fix` all true): on the witnesses above a second
+trim is the identity; `V1.putAll` is not kept by `-m V1.put`, `V0` keeps `extends f1.V2`, the include of
+the cut base is removed at once. -/
+theorem repaired_witnesses :
+    trimProg (trimProg progB (cfgB fixOn)) (cfgB fixOn) = trimProg progB (cfgB fixOn) ∧
+    ((trimProg progB (cfgB fixOn)).file 0).services = [] ∧
+    trimProg (trimProg progC (cfgC fixOn)) (cfgC fixOn) = trimProg progC (cfgC fixOn) ∧
+    ((trimProg progC (cfgC fixOn)).file 0).services =
+      [⟨[86, 48], [102, 49, 46, 86, 50], some ([86, 50], 0), []⟩, ⟨[86, 49], [86, 48], none, []⟩] ∧
+    trimProg (trimProg progD (cfgD fixOn)) (cfgD fixOn) = trimProg progD (cfgD fixOn) ∧
+    ((trimProg progD (cfgD fixOn)).file 0).includes = [] :=
+  repaired_facts
 
 /-- The hypotheses of the theorems above are satisfiable (a root with one service and one struct). -/
 example : UniqueSvcFn ⟨[⟨[102], [], [], [], [], [⟨[83], [], false⟩], [], [], [⟨[86], [], none, []⟩]⟩]⟩ := by
